@@ -7,5 +7,10 @@ CLAIMS = {
         'plus base case and K-step composition machine from contiguous arrays. SAT verdict over all inputs in the bounds; induction covers operation sequences of any length.',
    note='Bounds: extents<=3 (4 thorough), strides<=6, D<=3 (4 thorough); beyond them nothing is claimed. Domain assumptions on the spec side: indices inside the extension, stride | size (and | index base), partition count | size, flatted only on mutually contiguous zero-based leading dims, diagonal on zero-based dims. '
         'Trusted: clang-14 -O1 lowering, ll2c (validated differentially each run), CBMC+cadical. 32-bit narrow mode under the checked NARROW invariant; thorough re-runs at 64 bit.'),
+ 'C02': dict(
+   text='On an ARBITRARY valid view (symbolic sizes<=3, strides<=6, index bases in [-2,2] for begin/end; D=1..3): end-begin==size, order/equality follow positions, ++/--/+=/-=/+/- are mutually inverse, it[n]==*(it+n), '
+        'copies/assignments/const conversions denote the same position, and *(begin+p) is the same sub-view (base and layout) as v[first+p]. For elements(): size, and the ADDRESS obtained by dereferencing after every kind of movement '
+        '(++, --, +=, -=, +, -, assignment, copy, const conversion, [], front, back) equals the k-th tuple in canonical order computed by an independent spec. SAT verdict over all positions/offsets in the bounds.',
+   note='Bounds: extents<=3, strides<=6, D<=3; elements() laws on zero-based views (index bases are C19). Same trusted base as C01.'),
  'C16': dict(not_applicable='every clause is about which C++ expressions are well-formed / what type overload resolution yields (is_assignable, is_invocable, copy-constructibility): const-ness is erased before LLVM IR exists, there is no run-time behaviour to execute symbolically; the deciding procedure is the C++ type checker, not an SMT/SAT solver (DESIGN.md C16)'),
 }
